@@ -137,6 +137,7 @@ func genC17(seed uint64, tier string) *world.Scenario {
 	sc.Params["missing"] = 0
 	sc.Notes = missing
 	w.p("fans:")
+	usedPwm := map[[2]int]bool{}
 	for i := range sc.Fans {
 		f := &sc.Fans[i]
 		w.p("  - id: %s", f.ID)
@@ -183,7 +184,16 @@ func genC17(seed uint64, tier string) *world.Scenario {
 			// explicit pwm channel on another (existing) channel of the chip, sometimes
 			if r.Bool(0.3) && len(sc.Chips[f.Chip].ExtraFans) > 0 && !(last && strings.HasPrefix(missing, "fan-")) {
 				f.PwmChan = sc.Chips[f.Chip].ExtraFans[r.Intn(len(sc.Chips[f.Chip].ExtraFans))]
+				if usedPwm[[2]int{f.Chip, f.PwmChan}] {
+					f.PwmChan = 0 // two entries driving one output is not what this family is about
+				}
+			}
+			if f.PwmChan != 0 {
+				usedPwm[[2]int{f.Chip, f.PwmChan}] = true
 				w.p("      pwmChannel: %d", f.PwmChan)
+				if kernel.NewRand(seed, "c17.noenable."+f.ID).Bool(0.3) {
+					f.Driver.NoEnable = true // that output has no enable attribute (the fan's own channel has one)
+				}
 			}
 		}
 		w.p("    curve: c0\n    controlAlgorithm: direct")
@@ -300,7 +310,9 @@ func runC17(t *testing.T, sc *world.Scenario) *check.Result {
 		want["fan:"+f.ID] = []string{
 			fmt.Sprintf("read %s/fan%d_input", d, f.Channel),
 			fmt.Sprintf("read %s/pwm%d", d, pc),
-			fmt.Sprintf("write %s/pwm%d_enable", d, pc),
+		}
+		if !f.Driver.NoEnable {
+			want["fan:"+f.ID] = append(want["fan:"+f.ID], fmt.Sprintf("write %s/pwm%d_enable", d, pc))
 		}
 	}
 	for _, s := range sc.Sensors {
